@@ -176,13 +176,18 @@ def facts_vhdx(rng):
             pv.materialise(os.path.join(d, "parent.vhdx"))
         vf, _ = enc_vhdx.build([(enc_vhdx.ST_NOT_PRESENT if has_parent else enc_vhdx.ST_FULL, None if has_parent else k) for k in range(nb)], block_size=bs,
                                sector_size=sector, disk_size=size, disk_id=did, has_parent=has_parent, locator=loc if has_parent else None,
-                               phys_sector=rng.choice([512, 4096]))
+                               phys_sector=rng.choice([512, 4096]), locator_layout=rng.choice(["pairs", "keys-first", "values-first", "aligned", "shared"]))
         vf.materialise(os.path.join(d, "c.vhdx"))
         v = VHDX(Path(d) / "c.vhdx")
         f = [["size", size, v.size], ["block_size", bs, v.block_size], ["sector_size", sector, v.sector_size], ["id", str(did), str(v.id)],
              ["has_parent", int(has_parent), int(v.has_parent)]]
         if has_parent:
             f.append(["locator", repr(sorted(loc.items())), repr(sorted(v.parent_locator.entries.items()))])
+        # the metadata table object stays exposed after opening (also after a parent has been opened)
+        f.append(["metadata.size", size, v.metadata.get(enc_vhdx.G_DISK_SIZE)])
+        f.append(["metadata.sector", sector, v.metadata.get(enc_vhdx.G_LSS)])
+        f.append(["metadata.id", did.bytes_le.hex(), bytes(v.metadata.get(enc_vhdx.G_DISK_ID).virtual_disk_id).hex()])
+        f.append(["metadata.block_size", bs, v.metadata.get(enc_vhdx.G_FILE_PARAMS).block_size])
         return f
     finally:
         shutil.rmtree(d, ignore_errors=True)
